@@ -327,7 +327,7 @@ def main(chk):
     bounded_histories(chk)
     bounded_config(chk)
     chk.assumptions += [
-        "object views: Inv(Port) (no operator => no ports) is a proved postcondition of Port.line.fset for numeric operands (C08, clause `Inv(Port) of c_shadow`); for named operands, and Inv(Address) (regex classification in the address line setter), it rests on the C06/C01 bounded monitors",
+        "object views: Inv(Port) (no operator => no ports) is a proved postcondition of Port.line.fset (C08, clause `Inv(Port) of c_shadow`, operands written as numbers or as keywords of the assumed table); Inv(Address) (regex classification in the address line setter) rests on the C06/C01 bounded monitors",
         "assumed contracts: Protocol.name.fget (ip <=> 0, decided by C09), AddressBase.ipnets (ghost value; see C13/C05)",
         "ipaddress.IPv4Network.subnet_of == prefix containment (L13.bits lemmas are stated over that definition)",
         "flag tokens have the legacy match-any meaning; log tokens do not affect matching",
